@@ -151,8 +151,8 @@ pub fn def() -> PropDef {
         needs_pairing: false,
         subs: vec![
             Box::new(EnumSub { name: "rfc-vectors", rule: "RFC 9380 J.9.1 (msg \"\" and abc), J.9.2 (msg \"\"), J.10.1 (msg \"\") through the crate (enumerated)", run: run_kats, replay: replay_kats, exhaustive: true }),
-            Box::new(Sub { name: "g1", rule: "G1 suites vs model pipeline", quick: 1200, thorough: 40_000, strategy: || boxed(h2c_strategy(0)), check: check_h2c }),
-            Box::new(Sub { name: "g2", rule: "G2 suites vs model pipeline", quick: 500, thorough: 15_000, strategy: || boxed(h2c_strategy(1)), check: check_h2c }),
+            Box::new(Sub { name: "g1", rule: "G1 suites vs model pipeline", quick: 3_600, thorough: 40_000, strategy: || boxed(h2c_strategy(0)), check: check_h2c }),
+            Box::new(Sub { name: "g2", rule: "G2 suites vs model pipeline", quick: 1_500, thorough: 15_000, strategy: || boxed(h2c_strategy(1)), check: check_h2c }),
         ],
         assumptions: {
             let mut v = COMMON_ASSUMPTIONS.to_vec();
